@@ -255,7 +255,13 @@ struct HLive : Harness {
     } else {
       o.counters["probe.returned"]++;
       // finite leading components
-      if (c.rt == T_PCA || c.rt == T_PLS) {
+      if (c.rt == T_PLS && !o.violation) {
+        // the fields of a PLS model describe the same number of latent variables (every consumer indexes them in parallel)
+        size_t nl = deg.xscores.empty() ? 0 : deg.xscores[0].size();
+        bool ok = deg.b.size() == nl && deg.xvarexp.size() == nl && (deg.loadings.empty() || deg.loadings[0].size() == nl) && (deg.xweights.empty() || deg.xweights[0].size() == nl) && (deg.yloadings.empty() || deg.yloadings[0].size() == nl);
+        if (!ok) { char m[260]; snprintf(m, sizeof m, "PLS on %s input: model fields disagree about the number of latent variables (x scores %zu, b %zu, x explained variance %zu)", deg_name[c.deg], nl, deg.b.size(), deg.xvarexp.size()); o.fail("shape", m); }
+      }
+      if (!o.violation && (c.rt == T_PCA || c.rt == T_PLS)) {
         PreArg pa{&c.X, c.scaling, {}};
         sim_guard(call_preprocess, &pa);
         LMat E = to_l(pa.E);
